@@ -1067,7 +1067,19 @@ func (r *runner) checkViews() {
 			wp[p] = true
 		}
 		if fmt.Sprint(sortedU32(v.Participants)) != fmt.Sprint(sortedU32(wp)) {
-			r.v("C01", "view-participants", "%s sees participants %v, the session has %v", c.Label, sortedU32(v.Participants), sortedU32(wp))
+			var ks []string
+			for p := range v.Participants {
+				if !wp[p] {
+					ks = append(ks, fmt.Sprint(p))
+				}
+			}
+			for p := range wp {
+				if !v.Participants[p] {
+					ks = append(ks, fmt.Sprint(p))
+				}
+			}
+			sort.Strings(ks)
+			r.vk(ks, "pid:", "C01", "view-participants", "%s sees participants %v, the session has %v", c.Label, sortedU32(v.Participants), sortedU32(wp))
 		}
 		ge, we := map[uint32]VEntity{}, map[uint32]VEntity{}
 		for id, e := range v.Entities {
@@ -1076,12 +1088,12 @@ func (r *runner) checkViews() {
 		for id, e := range s.Entities {
 			we[id] = VEntity{Owner: e.Owner, Flag: e.Flag, Pose: e.Pose}
 		}
-		if d := diffMaps(ge, we); d != "" {
+		if d, ks := diffMapsK(ge, we); d != "" {
 			rule := "view-entities"
 			if strings.Contains(d, " is {") {
 				rule = "view-pose"
 			}
-			r.v("C01", rule, "%s's view of the entities: %s", c.Label, d)
+			r.vk(ks, "ent:", "C01", rule, "%s's view of the entities: %s", c.Label, d)
 			if r.lastOut != nil && strings.HasPrefix(r.lastOut.Kind, "pose") {
 				r.v("C11", "pose-last-not-relayed", "%s's view of the entities: %s", c.Label, d)
 			}
